@@ -668,6 +668,112 @@ func c14FirstCalls(ctx *Ctx, i int, rounds int) {
 	ctx.Emit(Case{I: i, Kind: "first-calls", Desc: map[string]interface{}{"rounds": rounds}, Monitor: mon})
 }
 
+// ---------- request ids when building a request fails ----------
+
+// slowBadParam blocks inside its JSON encoding until released, then fails.
+type slowBadParam struct {
+	entered chan struct{}
+	gate    chan struct{}
+}
+
+func (p slowBadParam) MarshalJSON() ([]byte, error) {
+	p.entered <- struct{}{}
+	<-p.gate
+	return nil, fmt.Errorf("this parameter cannot be encoded")
+}
+
+// c14FailedEncode: call X is still encoding its parameters (it has taken its request id), call Y
+// is sent and stays in flight, X's encoding fails, call Z is sent: Y and Z are both in flight and
+// must carry different ids; their replies, delivered in either order, reach the right call.
+func c14FailedEncode(ctx *Ctx, i int, rng *rand.Rand) {
+	var mon []string
+	codec := newManualCodec()
+	rem := &jsonrpc2.Remote{Codec: codec, Server: &jsonrpc2.Server{}, Client: &jsonrpc2.Client{}}
+	if rng.Intn(2) == 0 {
+		rem.Client = nil
+	}
+	go rem.Serve()
+	defer codec.Close()
+	cctx, cancel := context.WithTimeout(context.Background(), 3*time.Second)
+	defer cancel()
+	warm := rng.Intn(3) // some ordinary traffic first
+	for k := 0; k < warm; k++ {
+		done := make(chan struct{})
+		go func() { var out int; rem.Call(cctx, &out, "probe", k); close(done) }()
+		for t := 0; t < 2000 && codec.written() <= k; t++ {
+			time.Sleep(50 * time.Microsecond)
+		}
+		codec.mu.Lock()
+		id := codec.out[len(codec.out)-1].ID
+		codec.mu.Unlock()
+		codec.in <- &jsonrpc2.Message{Response: &jsonrpc2.Response{Result: json.RawMessage("0")}, ID: id, Version: "2.0"}
+		<-done
+	}
+	bad := slowBadParam{entered: make(chan struct{}, 1), gate: make(chan struct{})}
+	xDone := make(chan error, 1)
+	go func() { var out int; xDone <- rem.Call(cctx, &out, "probe", bad) }()
+	select {
+	case <-bad.entered:
+	case <-time.After(2 * time.Second):
+		fatal("the failing call never started encoding")
+	}
+	type res struct {
+		out int
+		err error
+	}
+	call := func(arg int) chan res {
+		ch := make(chan res, 1)
+		before := codec.written()
+		go func() { var out int; err := rem.Call(cctx, &out, "probe", arg); ch <- res{out, err} }()
+		for t := 0; t < 4000 && codec.written() == before; t++ {
+			time.Sleep(50 * time.Microsecond)
+		}
+		return ch
+	}
+	yCh := call(1)
+	close(bad.gate) // X fails now
+	xErr := <-xDone
+	zCh := call(2)
+	codec.mu.Lock()
+	n := len(codec.out)
+	var yID, zID string
+	if n >= 2 {
+		yID, zID = string(codec.out[n-2].ID), string(codec.out[n-1].ID)
+	}
+	codec.mu.Unlock()
+	if xErr == nil {
+		mon = append(mon, "c14-unexpected-error: a call whose parameter cannot be encoded returned no error")
+	}
+	if n < warm+2 {
+		mon = append(mon, fmt.Sprintf("c14-reply-lost: only %d requests were written, two calls are in flight", n))
+	} else if yID == zID {
+		mon = append(mon, fmt.Sprintf("c14-request-id-reused: two calls in flight at the same time both carry request id %s (a third call had failed to encode its parameters in between): their replies cannot be told apart", yID))
+	}
+	// answer Z first, then Y, each with its own payload
+	if n >= warm+2 {
+		codec.in <- &jsonrpc2.Message{Response: &jsonrpc2.Response{Result: json.RawMessage("222")}, ID: json.RawMessage(zID), Version: "2.0"}
+		time.Sleep(2 * time.Millisecond)
+		codec.in <- &jsonrpc2.Message{Response: &jsonrpc2.Response{Result: json.RawMessage("111")}, ID: json.RawMessage(yID), Version: "2.0"}
+		for name, want := range map[string]int{"Y": 111, "Z": 222} {
+			ch := yCh
+			if name == "Z" {
+				ch = zCh
+			}
+			select {
+			case r := <-ch:
+				if r.err != nil {
+					mon = append(mon, fmt.Sprintf("c14-reply-lost: call %s failed although its reply was delivered: %v", name, r.err))
+				} else if r.out != want {
+					mon = append(mon, fmt.Sprintf("c14-foreign-reply: call %s returned %d, the reply sent for its request was %d", name, r.out, want))
+				}
+			case <-time.After(1500 * time.Millisecond):
+				mon = append(mon, fmt.Sprintf("c14-reply-lost: call %s is still waiting although its reply was delivered", name))
+			}
+		}
+	}
+	ctx.Emit(Case{I: i, Kind: "failed-encode", Desc: map[string]interface{}{"warm_up_calls": warm, "ids_in_flight": []string{yID, zID}}, Monitor: mon})
+}
+
 // ---------- the service a handler finds in its context ----------
 
 // WhoService reports which service its handlers find in their context and calls back over it.
@@ -755,6 +861,11 @@ func runC14(ctx *Ctx) {
 	}
 	if ctx.Want(n + 1001) {
 		c14CtxService(ctx, n+1001)
+	}
+	for c := 0; c < ctx.N(4, 40); c++ {
+		if ctx.Want(n + 1010 + c) {
+			c14FailedEncode(ctx, n+1010+c, ctx.Sub(n+1010+c))
+		}
 	}
 	m := ctx.N(10, 120)
 	for c := 0; c < m; c++ {
